@@ -12,18 +12,21 @@ import (
 // Spec is the run spec of SIM-MW: one middleware instance and a short history
 // of requests through it.
 type Spec struct {
-	Doc        DocParams `json:"doc"`
-	Router     string    `json:"router"`             // gorilla | legacy
-	Kind       string    `json:"kind"`               // validator | vh_serve | vh_mw
-	Strict     bool      `json:"strict,omitempty"`   // validator only
-	ErrFunc    string    `json:"err_func,omitempty"` // default | record | silent | alt
-	LogFunc    string    `json:"log_func,omitempty"` // default | record
-	Encoder    string    `json:"encoder,omitempty"`  // vh: default | validation | record
-	MultiError bool      `json:"multi_error,omitempty"`
-	Auth       string    `json:"auth,omitempty"` // ok | fail | read_ok | read_fail
-	Marker     string    `json:"marker"`
-	MapSeed    uint64    `json:"map_seed,omitempty"` // 0 = sorted map iteration inside the library; else seeded permutation (the neutral oracle always runs sorted)
-	Reqs       []Req     `json:"reqs"`
+	Doc            DocParams `json:"doc"`
+	Router         string    `json:"router"`             // gorilla | legacy
+	Kind           string    `json:"kind"`               // validator | vh_serve | vh_mw
+	Strict         bool      `json:"strict,omitempty"`   // validator only
+	ErrFunc        string    `json:"err_func,omitempty"` // default | record | silent | alt
+	LogFunc        string    `json:"log_func,omitempty"` // default | record
+	Encoder        string    `json:"encoder,omitempty"`  // vh: default | validation | record
+	MultiError     bool      `json:"multi_error,omitempty"`
+	Auth           string    `json:"auth,omitempty"` // ok | fail | read_ok | read_fail
+	Marker         string    `json:"marker"`
+	MapSeed        uint64    `json:"map_seed,omitempty"`         // 0 = sorted map iteration inside the library; else seeded permutation (the neutral oracle always runs sorted)
+	ExclRespBody   bool      `json:"excl_resp_body,omitempty"`   // validator: Options.ExcludeResponseBody
+	InclRespStatus bool      `json:"incl_resp_status,omitempty"` // validator: Options.IncludeResponseStatus
+	VHOrder        string    `json:"vh_order,omitempty"`         // vh_*: "" (Load, then Middleware) | mw_first | reload
+	Reqs           []Req     `json:"reqs"`
 }
 
 type Req struct {
@@ -87,6 +90,10 @@ func (s *Spec) respPlanFor(r *simfw.RNG, op string, mk string) respPlan {
 	if op == "ping" {
 		switch r.Intn(4) {
 		case 0:
+			if r.Chance(1, 3) {
+				// two characters, one of them white space: valid as written (minLength 2), not after trimming
+				return respPlan{200, [][2]string{{"Content-Type", "text/plain"}}, simfw.Pick(r, []string{"x\n", "\tx", " x", "x ", "\r\n"}), "valid"}
+			}
 			return respPlan{200, [][2]string{{"Content-Type", "text/plain"}}, mk + " pong", "valid"}
 		case 1:
 			if r.Chance(1, 3) {
@@ -508,9 +515,12 @@ func Gen(seed uint64, tier string) *Spec {
 		s.ErrFunc = simfw.Pick(r, []string{"default", "default", "record", "silent", "alt"})
 		s.LogFunc = simfw.Pick(r, []string{"default", "record"})
 		s.MultiError = r.Chance(1, 3)
+		s.ExclRespBody = r.Chance(1, 6)
+		s.InclRespStatus = r.Chance(1, 6)
 	} else {
 		s.Router = "legacy"
 		s.Encoder = simfw.Pick(r, []string{"default", "validation", "record"})
+		s.VHOrder = simfw.Pick(r, []string{"", "", "mw_first", "reload"})
 	}
 	s.Auth = simfw.Pick(r, []string{"ok", "ok", "read_ok", "read_ok", "fail", "read_fail", "none"})
 	if s.Kind != "validator" && s.Auth == "none" {
